@@ -252,6 +252,10 @@ def streams(tier, rng, P, only=None, cases=None):
         # a call written as a statement without an argument list ends with its name: what stands on the next line is the next statement
         ML += [("FUNCTION RIFF(NA=2){ PRINT(NA) n60 }\nRIFF\nn62\nPRINT(9)", "(((fn RIFF ((NA 2)) ((print NA) (note 60)))) ((call RIFF ()) (note 62) (print 9)))"),
                ("FUNCTION BEAT(){ n61 }\nFOR(INT I=0;I<2;I++){\n BEAT\n PRINT(I)\n}\nBEAT\n\n// c\nPRINT(5)", "(((fn BEAT () ((note 61)))) ((for I 0 (b 9 I 2) (inc I 1) ((call BEAT ()) (print I))) (call BEAT ()) (print 5)))")]
+        # blanks or a line break between `FOR(` and the type word of the initialiser: the same loop, nothing logged about it
+        ML += [("FOR( INT I=0; I<3; I++){ PRINT(I) n60 }\nPRINT(I)", "(() ((for I 0 (b 9 I 3) (inc I 1) ((print I) (note 60))) (print I)))"),
+               ("FOR(\nINT I=0; I<2; I++){ PRINT(I) }", "(() ((for I 0 (b 9 I 2) (inc I 1) ((print I)))))"),
+               ("FUNCTION F(A){ FOR(  INT K=1; K<A; K++){ PRINT(K) } RETURN(K) }\nPRINT(F(3))", "(((fn F ((A 0)) ((for K 1 (b 9 K A) (inc K 1) ((print K))) (ret K)))) ((print (call F (3)))))")]
         for j, (src, sx) in enumerate(ML):
             cs.append(dict(req="run " + hx(src), src=src, show=src, sexp=sx, nt=1, key="ml%d" % j, multiline=True))
             # … and the same layouts with Windows line ends
